@@ -235,9 +235,11 @@ def rule_setitem(ctx):
     found_test = False
     for q in ev.paths:
         for e in q.events:
-            for g, pol in e.guards:
-                if g[0] == 'cmp' and g[1] == 'in' and g[2][0] == 'attr' and g[2][2] == 'name' and 'dims' in T.show(g[3]):
-                    found_test = True
+            for g0, pol in e.guards:
+                # the membership test, as a guard of its own or inside any(...) / all(...) over the variables
+                for g in T.subterms(g0):
+                    if g[0] == 'cmp' and g[1] == 'in' and g[2][0] == 'attr' and g[2][2] == 'name' and 'dims' in T.show(g[3]):
+                        found_test = True
     if okm and found_test:
         ctx.holds('R4', '_maybe_delete_axes: per-axis decision, by name in the variables\' dims')
     elif okm is None or not found_test:
